@@ -94,12 +94,17 @@ def run_sequence(part, m, seq, campaign):
             part.d['evaluations'] += 1
             n0 = len(fk.log)
             try:
+                # every third call passes its arguments by position, in the documented order (None for the ones not given)
+                positional = (len(seq) + sum(len(k_) for k_ in kw)) % 3 == 0
+                order = GEN_KEYS if kind == 'opts' else (('bs', 'stmin', 'wftmax') if kind == 'fc' else ('mtu', 'tx_dl', 'tx_flags'))
+                args = [kw.get(k_) for k_ in order] if positional else []
+                kwargs = {} if positional else kw
                 if kind == 'opts':
-                    s.set_opts(**kw)
+                    s.set_opts(*args, **kwargs)
                 elif kind == 'fc':
-                    s.set_fc_opts(**kw)
+                    s.set_fc_opts(*args, **kwargs)
                 else:
-                    s.set_ll_opts(**kw)
+                    s.set_ll_opts(*args, **kwargs)
                 outcome = 'ok'
             except ValueError:
                 outcome = 'valueerror'
